@@ -50,6 +50,7 @@ import (
 	"iter"
 	"regexp/syntax"
 	"strings"
+	"unicode/utf8"
 	"unsafe"
 
 	"github.com/coregx/coregex/meta"
@@ -804,7 +805,7 @@ func (r *Regex) ReplaceAllLiteral(src, repl []byte) []byte {
 		// This matches Go stdlib behavior (see FindAllIndex for details).
 		//nolint:gocritic // badCond: intentional - checking empty match at lastMatchEnd
 		if start == end && start == lastMatchEnd {
-			pos++
+			pos = nextSearchPos(src, pos)
 			if pos > len(src) {
 				break
 			}
@@ -827,7 +828,7 @@ func (r *Regex) ReplaceAllLiteral(src, repl []byte) []byte {
 
 		switch {
 		case start == end:
-			pos = end + 1
+			pos = nextSearchPos(src, end)
 		case end > pos:
 			pos = end
 		default:
@@ -875,7 +876,7 @@ func (r *Regex) ReplaceAllLiteralString(src, repl string) string {
 
 		//nolint:gocritic // badCond: intentional - checking empty match at lastMatchEnd
 		if start == end && start == lastMatchEnd {
-			pos++
+			pos = nextSearchPos(b, pos)
 			if pos > len(src) {
 				break
 			}
@@ -897,7 +898,7 @@ func (r *Regex) ReplaceAllLiteralString(src, repl string) string {
 
 		switch {
 		case start == end:
-			pos = end + 1
+			pos = nextSearchPos(b, end)
 		case end > pos:
 			pos = end
 		default:
@@ -1064,7 +1065,7 @@ func (r *Regex) ReplaceAll(src, repl []byte) []byte {
 		// This matches Go's stdlib behavior for preventing duplicate empty matches.
 		//nolint:gocritic // badCond: intentional - checking empty match at lastNonEmptyMatchEnd
 		if absStart == absEnd && absStart == lastNonEmptyMatchEnd {
-			pos++
+			pos = nextSearchPos(src, pos)
 			if pos > len(src) {
 				break
 			}
@@ -1087,8 +1088,8 @@ func (r *Regex) ReplaceAll(src, repl []byte) []byte {
 		// Move position past this match
 		switch {
 		case absStart == absEnd:
-			// Empty match: advance by 1 to avoid infinite loop
-			pos = absEnd + 1
+			// Empty match: advance by one code point (stdlib rule) to avoid infinite loop
+			pos = nextSearchPos(src, absEnd)
 		case absEnd > pos:
 			pos = absEnd
 		default:
@@ -1148,7 +1149,7 @@ func (r *Regex) ReplaceAllFunc(src []byte, repl func([]byte) []byte) []byte {
 
 		//nolint:gocritic // badCond: intentional - checking empty match at lastMatchEnd
 		if start == end && start == lastMatchEnd {
-			pos++
+			pos = nextSearchPos(src, pos)
 			if pos > len(src) {
 				break
 			}
@@ -1170,7 +1171,7 @@ func (r *Regex) ReplaceAllFunc(src []byte, repl func([]byte) []byte) []byte {
 
 		switch {
 		case start == end:
-			pos = end + 1
+			pos = nextSearchPos(src, end)
 		case end > pos:
 			pos = end
 		default:
@@ -1222,7 +1223,7 @@ func (r *Regex) ReplaceAllStringFunc(src string, repl func(string) string) strin
 
 		//nolint:gocritic // badCond: intentional - checking empty match at lastMatchEnd
 		if start == end && start == lastMatchEnd {
-			pos++
+			pos = nextSearchPos(b, pos)
 			if pos > len(src) {
 				break
 			}
@@ -1244,7 +1245,7 @@ func (r *Regex) ReplaceAllStringFunc(src string, repl func(string) string) strin
 
 		switch {
 		case start == end:
-			pos = end + 1
+			pos = nextSearchPos(b, end)
 		case end > pos:
 			pos = end
 		default:
@@ -1495,7 +1496,7 @@ func (r *Regex) AllIndex(b []byte) iter.Seq[[2]int] {
 			// This matches Go stdlib behavior.
 			//nolint:gocritic // badCond: intentional - checking empty match at lastMatchEnd
 			if start == end && start == lastMatchEnd {
-				pos++
+				pos = nextSearchPos(b, pos)
 				if pos > len(b) {
 					return
 				}
@@ -1507,8 +1508,9 @@ func (r *Regex) AllIndex(b []byte) iter.Seq[[2]int] {
 			if start != end {
 				lastMatchEnd = end
 			}
-			if end == pos {
-				pos++
+			if start == end {
+				// Empty match: resume one code point further (stdlib rule)
+				pos = nextSearchPos(b, end)
 			} else {
 				pos = end
 			}
@@ -1675,4 +1677,16 @@ func MatchReader(pattern string, r io.RuneReader) (matched bool, err error) {
 		return false, err
 	}
 	return re.MatchReader(r), nil
+}
+
+// nextSearchPos returns the position at which enumeration resumes after an empty
+// match at pos: one whole code point further (an ill-formed byte counts as width 1),
+// exactly like regexp's FindAll/ReplaceAll loops. At the end of input it returns
+// len(b)+1 so that callers terminate.
+func nextSearchPos(b []byte, pos int) int {
+	if pos < len(b) {
+		_, w := utf8.DecodeRune(b[pos:])
+		return pos + w
+	}
+	return pos + 1
 }
